@@ -25,14 +25,21 @@ import SgVerif.C06.Refine
 namespace SgVerif.C06
 open SgVerif.Sync
 
-theorem waitFor_some {m : Mutex} {a : Aid} {r r' : Res} (h : (m.waitFor a r).2 = some r') :
-    r' = r ∧ m.owner = some a ∧ (m.waitFor a r).1 = m := by
+theorem waitFor_some {m : Mutex} {a : Aid} {r r' : Res} {g : Bool} (h : (m.waitFor a r g).2 = some r') :
+    r' = r ∧ g = true ∧ (m.waitFor a r g).1 = m := by
   unfold Mutex.waitFor at h ⊢
   split at h
-  · rename_i ho
+  · rename_i hg
     simp only [Option.some.injEq] at h
-    simp [h, ho]
+    simp [h, hg]
   · simp at h
+
+/-- a granted `lock_async` made its caller the owner (free mutex, or recursive mutex already owned by the caller) -/
+theorem lockAsync_granted_owner (m : Mutex) (a : Aid) (h : (m.lockAsync a).2 = true) :
+    (m.lockAsync a).1.owner = some a := by
+  unfold Mutex.lockAsync at h ⊢
+  repeat' split
+  all_goals simp_all
 
 theorem condRelock_conds (w : World) (a : Aid) (m : Nat) (t : Bool) : (condRelock w a m t).1.conds = w.conds := by
   simp [condRelock]
@@ -144,7 +151,7 @@ theorem wait_returns_holding_mutex (w : World) (a : Aid) (m : Nat) (t : Bool) :
     refine ⟨by rw [hx, h3.1], ?_⟩
     simp only [upd_same, Mutex.lock]
     rw [h3.2.2]
-    exact h3.2.1
+    exact lockAsync_granted_owner _ _ h3.2.1
   · simp at hx
 
 /-- ... and when it is not answered now it is queued FIFO behind the current lockers of a busy mutex, registered, and
@@ -160,7 +167,7 @@ theorem relock_queues_behind_lockers (w : World) (a o : Aid) (m : Nat) (t : Bool
   have hm := SgVerif.C04.markLast_append a (.flag t) (w.mutexes m).queue 1 false .unit
   unfold condRelock Mutex.lock
   rw [hl]
-  simp only [Mutex.waitFor, ho, hne', if_false, optOut, upd_same, hm, and_self]
+  simp only [Mutex.waitFor, Bool.false_eq_true, if_false, optOut, upd_same, hm, and_self]
 
 /-- wait_for reports a timeout iff its timer fired before a notification: the timer event answers with `true` and
 removes the waiter from the queue (a later notify cannot reach it); notifications answer with `false`
